@@ -78,6 +78,7 @@ type run struct {
 	retErr        error
 	done          chan struct{}
 	record        bool
+	pause         time.Duration
 	holdTransient bool
 }
 
@@ -207,6 +208,10 @@ func newRun(cfg Config, rng *rand.Rand, pause time.Duration, record bool) (*run,
 		case "CERR":
 			st.Condition = "/nonexistent-verif/condition"
 		}
+		// a condition that holds changes nothing: a third of the other stages get one
+		if st.Condition == "" && rng.Intn(3) == 0 {
+			st.Condition = "true"
+		}
 		if i != cfg.Parent {
 			t := task.FromCommands("true")
 			t.Name = r.names[i]
@@ -252,8 +257,10 @@ func newRun(cfg Config, rng *rand.Rand, pause time.Duration, record bool) (*run,
 		registry.Store(r.stages[i], r)
 	}
 	r.sched = scheduler.NewScheduler(ctrlRunner{r})
+	r.pause = 50 * time.Millisecond
 	if pause > 0 {
 		r.sched.VerifSetPause(pause)
+		r.pause = pause
 	}
 	return r, nil
 }
@@ -409,9 +416,25 @@ func (r *run) quiesce(released map[int]bool, deadline time.Duration) (st []strin
 		p0 := atomic.LoadInt64(&r.passes[0])
 		p1 := atomic.LoadInt64(&r.passes[1])
 		ok := true
+		// A loop that polls makes passes all the time. If none is seen for a long while (200 x the
+		// pause, at least 400 ms) although nothing changes, the implementation is not polling; the
+		// state is then taken as settled and compared with the prediction as it is - whether the
+		// scheduler is still live is established by the releases that follow, not by pass counting.
+		settle := 200 * r.pause
+		if settle < 400*time.Millisecond {
+			settle = 400 * time.Millisecond
+		}
+		lastPass := time.Now()
+		lp0, lp1 := p0, p1
 		for {
 			if time.Now().After(limit) || r.hasReturned() {
 				ok = false
+				break
+			}
+			c0, c1 := atomic.LoadInt64(&r.passes[0]), atomic.LoadInt64(&r.passes[1])
+			if c0 != lp0 || c1 != lp1 {
+				lp0, lp1, lastPass = c0, c1, time.Now()
+			} else if time.Since(lastPass) > settle {
 				break
 			}
 			d0 := atomic.LoadInt64(&r.passes[0])-p0 >= 2
